@@ -102,6 +102,21 @@ HARNESSES = {
         "bounds": "attribute values of 0..=26 symbolic bytes, flags symbolic, four-octet-AS mode; unwind 28: accepted only if the length obeys the attribute's RFC rule, stored with the code and flags received, no panic",
         "timeout": 600,
     },
+    "c05_attr_decode_as_path": {
+        "pkg": "rustybgp-packet", "target": "bgp::Attribute::decode (AS_PATH, four-octet mode)", "complete": False,
+        "bounds": "attribute values of 0..=14 symbolic bytes, flags symbolic; unwind 16: accepted only if the value is whole segments of defined types, stored as received with the code and flags received, no panic",
+        "timeout": 900,
+    },
+    "c05_attr_decode_as_path_two_octet": {
+        "pkg": "rustybgp-packet", "target": "bgp::Attribute::decode (AS_PATH, two-octet mode)", "complete": False,
+        "bounds": "attribute values of 0..=14 symbolic bytes, flags symbolic; unwind 16: accepted only if the value is whole two-octet segments of defined types; the stored four-octet form is whole segments again; no panic",
+        "timeout": 900,
+    },
+    "c05_attr_decode_as4_path": {
+        "pkg": "rustybgp-packet", "target": "bgp::Attribute::decode (AS4_PATH)", "complete": False,
+        "bounds": "attribute values of 0..=14 symbolic bytes, flags symbolic; unwind 16: accepted only if the value is at least one whole non-empty segment of a defined type, no panic",
+        "timeout": 900,
+    },
     # ---------------------------------------------------------------- C06
     "c06_id_alloc_unique": {
         "pkg": "rustybgp-table", "target": "IdAllocator::alloc", "complete": False,
